@@ -68,6 +68,60 @@ vf_gb_md5_final(md5_ctx_p ctx, uint8_t *digest) {
 	ctx->count = 0;
 	ctx->hash[0] = 0;
 }
+#define VF_MD5_GHOST_ASSIGNS	vf_md5_n, __CPROVER_object_whole(vf_md5_len), \
+	__CPROVER_object_whole(vf_md5_at), __CPROVER_object_whole(vf_md5_dig)
+#define VF_HM_GHOST_ASSIGNS	vf_hm_n, __CPROVER_object_whole(vf_hm_key), __CPROVER_object_whole(vf_hm_key_len), \
+	__CPROVER_object_whole(vf_hm_len), __CPROVER_object_whole(vf_hm_at), __CPROVER_object_whole(vf_hm_dig)
+/* HMAC-MD5 ghost bodies (same model as the hmac_md5_* ghost contracts below) */
+#define hmac_md5_init	vf_gb_hmac_md5_init
+#define hmac_md5_update	vf_gb_hmac_md5_update
+#define hmac_md5_final	vf_gb_hmac_md5_final
+#define VF_HM_TBL	2
+extern const uint8_t *vf_hm_key[VF_HM_TBL + 1];
+extern size_t	vf_hm_key_len[VF_HM_TBL + 1];
+extern size_t	vf_hm_n;
+extern size_t	vf_hm_len[VF_HM_TBL];
+extern uint8_t	vf_hm_at[VF_HM_TBL];
+extern uint8_t	vf_hm_dig[VF_HM_TBL][16];
+static inline void
+vf_gb_hmac_md5_init(const uint8_t *key, const size_t key_len, hmac_md5_ctx_p hctx) {
+	__CPROVER_precondition(key_len == 0 || __CPROVER_r_ok(key, key_len), "hmac_md5_init: key span inside its object");
+	__CPROVER_assert(vf_hm_n < VF_HM_TBL, "ghost HMAC table large enough");
+	vf_hm_key[vf_hm_n] = key;
+	vf_hm_key_len[vf_hm_n] = key_len;
+	hctx->ctx.count = 0;
+	hctx->ctx.hash[0] = 0;
+}
+static inline void
+vf_gb_hmac_md5_update(hmac_md5_ctx_p hctx, const uint8_t *data, const size_t data_size) {
+	vf_gb_md5_update(&hctx->ctx, data, data_size);
+}
+static inline void
+vf_gb_hmac_md5_final(hmac_md5_ctx_p hctx, uint8_t *digest) {
+	uint8_t i;
+	__CPROVER_assert(vf_hm_n < VF_HM_TBL, "ghost HMAC table large enough");
+	vf_hm_len[vf_hm_n] = hctx->ctx.count;
+	vf_hm_at[vf_hm_n] = (uint8_t)hctx->ctx.hash[0];
+	for (i = 0; i < 16; i ++) {
+		vf_hm_dig[vf_hm_n][i] = nondet_uint8_t();
+		digest[i] = vf_hm_dig[vf_hm_n][i];
+	}
+	vf_hm_n ++;
+	hctx->ctx.count = 0;
+	hctx->ctx.hash[0] = 0;
+}
+#define VF_HM_DIG_IS(d, i)	((d)[0] == vf_hm_dig[i][0] && (d)[1] == vf_hm_dig[i][1] && \
+	(d)[2] == vf_hm_dig[i][2] && (d)[3] == vf_hm_dig[i][3] && (d)[4] == vf_hm_dig[i][4] && \
+	(d)[5] == vf_hm_dig[i][5] && (d)[6] == vf_hm_dig[i][6] && (d)[7] == vf_hm_dig[i][7] && \
+	(d)[8] == vf_hm_dig[i][8] && (d)[9] == vf_hm_dig[i][9] && (d)[10] == vf_hm_dig[i][10] && \
+	(d)[11] == vf_hm_dig[i][11] && (d)[12] == vf_hm_dig[i][12] && (d)[13] == vf_hm_dig[i][13] && \
+	(d)[14] == vf_hm_dig[i][14] && (d)[15] == vf_hm_dig[i][15])
+#define VF_MD5_DIG_IS(d, i)	((d)[0] == vf_md5_dig[i][0] && (d)[1] == vf_md5_dig[i][1] && \
+	(d)[2] == vf_md5_dig[i][2] && (d)[3] == vf_md5_dig[i][3] && (d)[4] == vf_md5_dig[i][4] && \
+	(d)[5] == vf_md5_dig[i][5] && (d)[6] == vf_md5_dig[i][6] && (d)[7] == vf_md5_dig[i][7] && \
+	(d)[8] == vf_md5_dig[i][8] && (d)[9] == vf_md5_dig[i][9] && (d)[10] == vf_md5_dig[i][10] && \
+	(d)[11] == vf_md5_dig[i][11] && (d)[12] == vf_md5_dig[i][12] && (d)[13] == vf_md5_dig[i][13] && \
+	(d)[14] == vf_md5_dig[i][14] && (d)[15] == vf_md5_dig[i][15])
 #elif !defined(VF_MD5_UF)
 #define VF_MD5_GHOST_ASSIGNS	vf_md5_n, __CPROVER_object_whole(vf_md5_len), \
 	__CPROVER_object_whole(vf_md5_at), __CPROVER_object_whole(vf_md5_dig)
